@@ -56,7 +56,7 @@ def parse(line):
     tok = line.split()
     if tok and tok[0] in ("D", "R"):
         tok = tok[1:]
-    if len(tok) < 3 or tok[0] not in ("SCHED", "SCHEDX") or not tok[1].isdigit():
+    if len(tok) < 3 or tok[0] not in ("SCHED", "SCHEDX", "SCHEDT") or not tok[1].isdigit():
         return None
     n = int(tok[1])
     readings, i, whole = [], 2, None
@@ -156,6 +156,7 @@ def corpus():
         mk([[t] * 66000], [0] * 66000, whole=True),
     ]
     out += [l.replace("SCHED ", "SCHEDX ", 1) for l in out if len(l) < 100000]
+    out += [l.replace("SCHED ", "SCHEDT ", 1) for l in out if l.startswith("SCHED ") and len(l) < 100000]
     return out
 
 
@@ -216,7 +217,8 @@ def cases(rng, tier):
     out = _cases(rng, tier)
     # the same schedules with the calls going through the crate's other entry points that generate a fresh creation timestamp
     # (new_std_payload_bundle, new_status_report_bundle in rotation with now()): same expected result
-    return out + [l.replace("SCHED ", "SCHEDX ", 1) for l in out[::4] if l.startswith("SCHED ")]
+    return (out + [l.replace("SCHED ", "SCHEDX ", 1) for l in out[::4] if l.startswith("SCHED ")]
+            + [l.replace("SCHED ", "SCHEDT ", 1) for l in out[1::3] if l.startswith("SCHED ")])
 
 
 def _cases(rng, tier):
@@ -290,6 +292,8 @@ def oracle(line, out, mode):
         got = sum(1 for x in res if x[0] == t)
         if got != len(r):
             return "thread %d made %d calls but %d returned" % (t, len(r), got)
+    if _ticking(line):
+        return None                      # a clock that ticks INSIDE a call: which reading a call uses is free, only uniqueness is judged
     order = non_overlapping_order(readings, whole, entries)
     if order is not None:
         want = sequential_spec(readings, order)
@@ -298,8 +302,15 @@ def oracle(line, out, mode):
     return None
 
 
+def _ticking(line):
+    t = line.split()
+    return bool(t) and (t[0] == "SCHEDT" or (len(t) > 1 and t[0] in ("D", "R") and t[1] == "SCHEDT"))
+
+
 def same(line, io, mo):
-    return False
+    """SCHEDT: the clock ticks inside every call (first read = the written reading, later reads one millisecond more); the model reads
+    once, an implementation may read twice and use either - the oracle (distinct pairs, every call returns) judges alone"""
+    return _ticking(line)
 
 
 def _flags(readings, res):
